@@ -48,11 +48,24 @@ let reader_params rd =
 
 let key w h body = string_of_cn w ^ "," ^ string_of_cn h ^ "," ^ (let s = hex_of_bytes body in if s = "" then "-" else s)
 
+(* array-backed equivalent of Base.Prog.input_of_exts for large dense extents (see ocaml/mp4.ml) *)
+let fast_input_of_exts (len : n) (exts : (n * byte list) list) : input =
+  let dense = List.fold_left (fun a (_, l) -> a + List.length l) 0 exts in
+  if dense <= 8192 then x_input_of_exts len exts else
+  let es = List.map (fun (o, l) -> let a = Array.of_list l in let zo = z_of_cn o in
+                      (zo, BZ.add zo (BZ.of_int (Array.length a)), a)) exts in
+  { ilen = len;
+    iget = (fun off -> let z = z_of_cn off in
+             let rec go = function
+               | [] -> byte_tab.(0)
+               | (o, e, a) :: r -> if BZ.leq o z && BZ.lt z e then a.(BZ.to_int (BZ.sub z o)) else go r in
+             go es) }
+
 let run_webp args = match args with
   | [rd; allow; len; exts; table] ->
     let exts = parse_exts exts in
     let total = List.fold_left (fun a (_, l) -> a + List.length l) 0 exts in
-    let inp = x_input_of_exts (cn_of_string len) exts in
+    let inp = fast_input_of_exts (cn_of_string len) exts in
     let need = ref [] in
     (* the lossless validator of the model is the extracted Webp/Vp8l.v lossless_read *)
     let lossless w h body = x_lossless_read w h body in
@@ -65,7 +78,7 @@ let run_wspec args = match args with
   | [_rd; allow; len; exts; table] ->
     let exts = parse_exts exts in
     let total = List.fold_left (fun a (_, l) -> a + List.length l) 0 exts in
-    let inp = x_input_of_exts (cn_of_string len) exts in
+    let inp = fast_input_of_exts (cn_of_string len) exts in
     let tbl = parse_table table in
     let need = ref [] in
     let lossless_ok w h body =
